@@ -84,8 +84,13 @@ Record config := mkConfig {
   c_rejects : bool;      (* rejectHandle is not None *)
   c_sc : bool;           (* FastqHandle(single_cell=True) for the target *)
   c_nh : nat;            (* number of handles of the joint FastqHandles: 2 if pairedEnd else 1 *)
-  c_legacy : bool        (* generic-exception arm of the unrepaired loader *)
+  c_legacy : bool;       (* generic-exception arm of the unrepaired loader *)
+  c_log : bool           (* log_handle is not None: only decides whether the counters / tracebacks are ALSO written to the
+                            log; no write to a sink and no counter depends on it (Props: C01_log_independent) *)
 }.
+
+Definition set_log (b : bool) (cfg : config) : config :=
+  mkConfig (c_max cfg) (c_rejects cfg) (c_sc cfg) (c_nh cfg) (c_legacy cfg) b.
 
 (* one write of one record to one file.  e_pair / e_strat are ghost labels (which input pair and which
    strategy caused the write); the bytes of a file are the concatenation of e_text. *)
@@ -302,7 +307,8 @@ Definition dec_rejhdr (v : Val) : read -> str -> hout :=
   lookup_hout (map (fun e => (dec_read (nthV 0 e), dec_str (nthV 1 e), dec_hout (nthV 2 e))) (getL v)).
 
 Definition dec_config (v : Val) : config :=
-  mkConfig (getOptZ (nthV 0 v)) (getB (nthV 1 v)) (getB (nthV 2 v)) (Z.to_nat (getZ (nthV 3 v))) (getB (nthV 4 v)).
+  mkConfig (getOptZ (nthV 0 v)) (getB (nthV 1 v)) (getB (nthV 2 v)) (Z.to_nat (getZ (nthV 3 v))) (getB (nthV 4 v))
+           (getB (nthV 5 v)).
 
 (* the files that received at least one record, in order of first write, with their bytes *)
 Definition file_key := (bool * str * nat)%type.
